@@ -75,6 +75,12 @@ def ref_types(b):
         except B.IllTyped:
             pass
         if op == 'arrayval':
+            # an array literal is a constant: its sort (index sort and
+            # element sort) occurs in the formula
+            try:
+                expand(B.typeof(s, tm), req)
+            except B.IllTyped:
+                pass
             expand(pl, allowed)
     return req, allowed | req
 
@@ -325,6 +331,12 @@ def special_cases():
         par.append(('and', None, (p, ('forall', (('c12_b%d' % k, t if
                                                   t[0] != 'Fun' else
                                                   t[1]),), (q,)))))
+    # sorts that occur only as the index sort of an array literal
+    UI = ('U', 'OnlyIndex')
+    par.append(('eq', None, (('arrayval', UI, (B.Int(0),)),
+                             ('arrayval', UI, (B.Int(1),)))))
+    par.append(('eq', None, (('select', None, (
+        ('arrayval', B.BV(6), (B.Int(0),)), B.BVc(3, 6))), B.Int(0))))
     out = par + [
         # quantifier shadows a free symbol
         ('and', None, (p, ('forall', (('p0', B.BOOL),), (
